@@ -1,7 +1,7 @@
 \* NOT registered: unrepaired sendBlock under rsync.Transmit. TLC must report InvC20Transmit violated:
 \* a transport failing once at a swallowed block flush, later calls overwrite transmitError with nil.
 CONSTANTS Alphabet = {97, 98} MaxLen = 2 MaxDatas = {1} WeakM = 65536
-          SwallowSendBlockError = TRUE Faults = TRUE MaxLenT = 2 NFiles = 1
+          SwallowSendBlockError = TRUE Faults = TRUE OpReset = "whole" MaxLenT = 2 NFiles = 1 MissingFiles = TRUE TmReset = "whole"
 SPECIFICATION TSpecT
 INVARIANTS InvC20Transmit
 CHECK_DEADLOCK FALSE
